@@ -77,6 +77,77 @@ def generate(g, ex):
                       ('as-Vec', ['C09'], 'ret is Ret ==> ret->Ret_0.0 == this.elems()[idx as int] && ret->Ret_0.1 == ' +
                        ('this.elems().remove(idx as int)' if name == 'remove' else 'this.elems().update(idx as int, this.elems().last()).drop_last()'))],
                      stats, n, PROPS))
+
+    # =====================================================================================================
+    # append / prepend / pop_back / pop_front / split / concat: whole-array moves over typed cursors (rule R-ptr in
+    # elements).  Type-level lengths are evaluated by name: Add1<N> -> N+1, Sub1<N> -> N-1, Diff<N,K> -> N-K, Sum<N,M> -> N+M
+    # (typenum assumed to compute what its names say).  The targets of `as _` casts are taken from the declared result
+    # types (rustc's inference is not reproduced): array-typed results are read / written as whole arrays, T-typed as one element.
+    # =====================================================================================================
+    def strided(impl_re, name, vsig, requires, ensures, rules, tail=None, extra_props=None):
+        m = re.search(impl_re, text)
+        if not m:
+            raise ex.LostAnchor('impl for %s not found' % name)
+        i = m.end() - 1
+        block = text[i + 1:ex.match_brace(text, i)]
+        f = ex.find_fn(block, name, i + 1, text)
+        stats = {}
+        body = ex.normalize(f['body'])
+        n = ex.statements(body)
+        body = ex.apply_rules(body, rules + [('R-misc', r'\bunsafe \{', '{')], stats)
+        ex.check_supported(name, body, allow=('.add(', '.cast('))
+        g.emit_fn(Fn(name, FILE, f['line'], f['sig'], vsig, body, requires, ensures, stats, n, PROPS, tail_proof=tail))
+
+    LEN = ['this.len() == N::n()']
+    W_SELF = ('R-write', r'ptr::write\((\w+), self\);', r'longer.write_array(\1, this);')
+    strided(r'unsafe impl<T, N: ArrayLength> Lengthen<T> for GenericArray<T, N>\s*where[^{]*\{', 'append',
+            'pub fn append<T, N: ArrayLength>(this: Seq<T>, last: T) -> (ret: Seq<T>)', LEN + ['N::n() < usize::MAX'],
+            [('as-Vec-push', ['C09', 'C03'], 'ret == this.push(last)')],
+            [('R-slots', r'let mut longer: MaybeUninit<Self::Longer> = MaybeUninit::uninit\(\);', 'let mut longer = OutBuf::uninit(N::usize_() + 1);'),
+             ('R-ptr', r'longer\.as_mut_ptr\(\) as \*mut Self', 'longer.as_mut_ptr(N::usize_())'),
+             W_SELF,
+             ('R-write', r'ptr::write\(out_ptr\.add\(1\) as \*mut T, last\);', 'longer.write_elem(out_ptr.add(1).cast(1), last);')],
+            tail='proof { assert(__ret =~= this.push(last)); }')
+    strided(r'unsafe impl<T, N: ArrayLength> Lengthen<T> for GenericArray<T, N>\s*where[^{]*\{', 'prepend',
+            'pub fn prepend<T, N: ArrayLength>(this: Seq<T>, first: T) -> (ret: Seq<T>)', LEN + ['N::n() < usize::MAX'],
+            [('as-Vec-insert-0', ['C09', 'C03'], 'ret == seq![first] + this')],
+            [('R-slots', r'let mut longer: MaybeUninit<Self::Longer> = MaybeUninit::uninit\(\);', 'let mut longer = OutBuf::uninit(N::usize_() + 1);'),
+             ('R-ptr', r'longer\.as_mut_ptr\(\) as \*mut T', 'longer.as_mut_ptr(1)'),
+             ('R-write', r'ptr::write\(out_ptr, first\);', 'longer.write_elem(out_ptr, first);'),
+             ('R-write', r'ptr::write\(out_ptr\.add\(1\) as \*mut Self, self\);', 'longer.write_array(out_ptr.add(1).cast(N::usize_()), this);')],
+            tail='proof { assert(__ret =~= seq![first] + this); }')
+    SH = r'unsafe impl<T, N: ArrayLength> Shorten<T> for GenericArray<T, N>\s*where[^{]*\{'
+    WHOLE = ('R-slots', r'let whole = ManuallyDrop::new\(self\);', 'let mut whole = Whole::new(this);')
+    strided(SH, 'pop_back', 'pub fn pop_back<T, N: ArrayLength>(this: Seq<T>) -> (ret: (Seq<T>, T))', LEN + ['N::n() >= 1'],
+            [('as-Vec-pop', ['C09', 'C03'], 'ret.0 == this.drop_last() && ret.1 == this.last()')],
+            [WHOLE,
+             ('R-read', r'let init = ptr::read\(whole\.as_ptr\(\) as _\);', 'let __c0 = whole.as_ptr(); let init = whole.read_array(__c0, N::usize_() - 1);'),
+             ('R-read', r'let last = ptr::read\(whole\.as_ptr\(\)\.add\(Sub1::<N>::USIZE\) as _\);', 'let __c1 = whole.as_ptr().add(N::usize_() - 1); let last = whole.read_elem(__c1);'),
+             ('R-drop', r'\(init, last\) \}$', 'whole.scope_exit() /*OB:pop_back.every-element-moved-to-exactly-one-output:C03*/; (init, last) }')],
+            tail='proof { assert(__ret.0 =~= this.drop_last()); }')
+    strided(SH, 'pop_front', 'pub fn pop_front<T, N: ArrayLength>(this: Seq<T>) -> (ret: (T, Seq<T>))', LEN + ['N::n() >= 1'],
+            [('as-Vec-remove-0', ['C09', 'C03'], 'ret.0 == this.first() && ret.1 == this.drop_first()')],
+            [WHOLE,
+             ('R-read', r'let head = ptr::read\(whole\.as_ptr\(\) as _\);', 'let __c0 = whole.as_ptr(); let head = whole.read_elem(__c0);'),
+             ('R-read', r'let tail = ptr::read\(whole\.as_ptr\(\)\.offset\(1\) as _\);', 'let __c1 = whole.as_ptr().add(1); let tail = whole.read_array(__c1, N::usize_() - 1);'),
+             ('R-drop', r'\(head, tail\) \}$', 'whole.scope_exit() /*OB:pop_front.every-element-moved-to-exactly-one-output:C03*/; (head, tail) }')],
+            tail='proof { assert(__ret.1 =~= this.drop_first()); }')
+    strided(r'unsafe impl<T, N, K> Split<T, K> for GenericArray<T, N>\s*where[^{]*\{', 'split',
+            'pub fn split<T, N: ArrayLength, K: ArrayLength>(this: Seq<T>) -> (ret: (Seq<T>, Seq<T>))', LEN + ['K::n() <= N::n()'],
+            [('as-split_at-K', ['C09', 'C03'], 'ret.0 == this.subrange(0, K::n() as int) && ret.1 == this.subrange(K::n() as int, N::n() as int)')],
+            [WHOLE,
+             ('R-read', r'let head = ptr::read\(whole\.as_ptr\(\) as \*const _\);', 'let __c0 = whole.as_ptr(); let head = whole.read_array(__c0, K::usize_());'),
+             ('R-read', r'let tail = ptr::read\(whole\.as_ptr\(\)\.add\(K::USIZE\) as \*const _\);', 'let __c1 = whole.as_ptr().add(K::usize_()); let tail = whole.read_array(__c1, N::usize_() - K::usize_());'),
+             ('R-drop', r'\(head, tail\) \}$', 'whole.scope_exit() /*OB:split.every-element-moved-to-exactly-one-output:C03*/; (head, tail) }')],
+            tail='proof { assert(__ret.0 =~= this.subrange(0, K::n() as int)); assert(__ret.1 =~= this.subrange(K::n() as int, N::n() as int)); }')
+    strided(r'unsafe impl<T, N, M> Concat<T, M> for GenericArray<T, N>\s*where[^{]*\{', 'concat',
+            'pub fn concat<T, N: ArrayLength, M: ArrayLength>(this: Seq<T>, rest: Seq<T>) -> (ret: Seq<T>)', LEN + ['rest.len() == M::n()', 'N::n() + M::n() <= usize::MAX'],
+            [('as-Vec-extend', ['C09', 'C03'], 'ret == this + rest')],
+            [('R-slots', r'let mut output: MaybeUninit<Self::Output> = MaybeUninit::uninit\(\);', 'let mut output = OutBuf::uninit(N::usize_() + M::usize_());'),
+             ('R-ptr', r'output\.as_mut_ptr\(\) as \*mut Self', 'output.as_mut_ptr(N::usize_())'),
+             ('R-write', r'ptr::write\(out_ptr, self\);', 'output.write_array(out_ptr, this);'),
+             ('R-write', r'ptr::write\(out_ptr\.add\(1\) as \*mut _, rest\);', 'output.write_array(out_ptr.add(1).cast(M::usize_()), rest);')],
+            tail='proof { assert(__ret =~= this + rest); }')
     g.raw('proof fn canary() { assert(false); } /*OB:canary:*/')
     g.raw('} // verus!\nfn main() {}\n')
 
